@@ -133,7 +133,18 @@ def sh(cmd, cwd, env=None, timeout=3000):
     return p.returncode, p.stdout
 
 
-def build():
+SO_RELEASE = os.path.join(TARGET, "release", "libcameleon_gentl.so")
+
+
+def cargo_lock():
+    """the lock ./check takes around its own cargo builds in harness/"""
+    import fcntl
+    f = open(os.path.join(ROOT, "work", ".cargo.lock"), "w")
+    fcntl.flock(f, fcntl.LOCK_EX)
+    return f
+
+
+def build(release=False):
     env = dict(os.environ)
     env.pop("RUSTFLAGS", None)
     env.update({"CARGO_TARGET_DIR": TARGET, "CARGO_NET_OFFLINE": "true", "CARGO_TERM_COLOR": "never"})
@@ -146,14 +157,21 @@ def build():
     if rc != 0:
         sys.stderr.write("cargo build -p cameleon-gentl failed:\n" + out[-3000:])
         sys.exit(3)
+    if release:
+        rc, out = sh(["cargo", "build", "-p", "cameleon-gentl", "--offline", "--quiet", "--release"], REPO, env)
+        if rc != 0:
+            sys.stderr.write("cargo build --release -p cameleon-gentl failed:\n" + out[-3000:])
+            sys.exit(3)
     env2 = dict(os.environ)
     env2.pop("RUSTFLAGS", None)
     env2.update({"CARGO_NET_OFFLINE": "true", "CARGO_TERM_COLOR": "never"})
+    lock = cargo_lock()
     for attempt in range(3):
         rc, out = sh(["cargo", "build", "--quiet", "--bin", "c19_xml"], HARN, env2)
         if rc == 0:
             break
         time.sleep(5)
+    lock.close()
     if rc != 0:
         sys.stderr.write("cargo build --bin c19_xml failed:\n" + out[-3000:])
         sys.exit(3)
@@ -189,7 +207,7 @@ def le(res):
 
 def parse_xml(path):
     rc, out = sh([os.path.join(HARN, "target", "debug", "c19_xml"), path], WORK)
-    d = {"regs": [], "strs": {}, "ports": [], "error": None}
+    d = {"regs": [], "strs": {}, "ports": [], "ints": {}, "enums": {}, "error": None}
     for line in out.splitlines():
         t = line.split("\t")
         if t[0] == "error":
@@ -202,6 +220,10 @@ def parse_xml(path):
             d["strs"][t[1]] = t[2] if len(t) > 2 else ""
         elif t[0] == "port":
             d["ports"].append(t[1])
+        elif t[0] == "int":
+            d["ints"][t[1]] = int(t[2])
+        elif t[0] == "enum":
+            d["enums"][t[1]] = [e.split("=")[0] for e in (t[2] if len(t) > 2 else "").split(",") if e]
     if rc != 0 and not d["error"]:
         d["error"] = "c19_xml exit code %d" % rc
     return d
@@ -341,6 +363,81 @@ INVALID_QUERIES = [
     "tlinfo 1 0 {b}", "tlinfo 9 0 {b}", "tlifid 1 0 {b}", "tlifid 9 0 {b}", "tlifinfo 1 good 0 {b}", "tlifinfo 9 good 0 {b}",
     "ifinfo 0 0 {b}", "ifinfo 9 0 {b}", "portinfo 9 0 {b}", "porturl 9 {b}", "urlinfo 9 0 0 {b}",
 ]
+IDX_SWEEP = [0, 1, 2, 3, 255, 256, 257, 65535, 65536, 65537, 1 << 31, (1 << 32) - 1]
+CMD_SWEEP = list(range(-3, 41)) + [127, 128, 255, 256, 257, 999, 1000, 1001, 65535, 65536, 65537, (1 << 31) - 1, -(1 << 31)]
+
+
+def gen_index_command_sweeps():
+    """A4: every index / command parameter over a dense range + the truncation boundaries"""
+    fams = [
+        ("tlinfo 0 {x} {b}", CMD_SWEEP), ("tlifid 0 {x} {b}", IDX_SWEEP), ("tlifinfo 0 good {x} {b}", CMD_SWEEP),
+        ("ifinfo 1 {x} {b}", CMD_SWEEP), ("portinfo 0 {x} {b}", CMD_SWEEP), ("portinfo 1 {x} {b}", CMD_SWEEP),
+        ("urlinfo 0 {x} 0 {b}", IDX_SWEEP), ("urlinfo 1 {x} 0 {b}", IDX_SWEEP), ("urlinfo 0 0 {x} {b}", CMD_SWEEP),
+        ("urlinfo 1 0 {x} {b}", CMD_SWEEP), ("urlinfo 0 256 {x} {b}", CMD_SWEEP[:16]),
+        ("ifdevid 1 {x} {b}", IDX_SWEEP), ("ifdevinfo 1 bad {x} {b}", CMD_SWEEP[:20]),
+    ]
+    return [OPEN + [tmpl.format(x=x, b=b) for x in xs for b in ("null:0", "200")] + ["lasterr 160"] for (tmpl, xs) in fams]
+
+
+ISIZE_MAX = (1 << 63) - 1
+
+
+def alphabet(h, dst=3):
+    """one instance of EVERY entry point on handle slot `h`, plus the variants with a NULL required
+    pointer and with sizes no buffer can have (the refusal sweeps are generated from this list)"""
+    base = [
+        "closelib", "gcinfo", "lasterr 64", "lasterr null:0", "tlopen %d" % dst, "tlclose {h}", "ifclose {h}",
+        "tlupd {h}", "tlnum {h}", "tlifid {h} 0 64", "tlinfo {h} 0 64", "tlifinfo {h} good 0 64",
+        "tlopenif {h} good %d" % (dst + 1), "ifinfo {h} 0 64", "ifnum {h}", "ifupd {h}", "ifparent {h}",
+        "ifdevid {h} 0 64", "ifdevinfo {h} bad 0 64", "ifopendev {h} bad", "portinfo {h} 0 64", "porturl {h} 64",
+        "numurls {h}", "urlinfo {h} 0 0 64", "read {h} 0 4", "write {h} 1028 00000000", "write {h} 4 00000000",
+        "reads {h} 2 0 4 4 4", "writes {h} 1 1028 00000000", "writes {h} 2 4 00000000 1028 00000000",
+        "read {h} 0 %d" % (1 << 63), "read {h} 0 %d" % (U64 - 1), "write {h} 0 claim:%d" % (1 << 63),
+        "write {h} 1028 claim:%d" % (U64 - 1), "reads {h} 2 0 4 0 %d" % (U64 - 1), "writes {h} 2 1028 00000000 0 claim:%d" % (1 << 63),
+    ]
+    nulls = [
+        "np:code lasterr 64", "np:size lasterr 64", "np:out tlopen %d" % dst, "np:out tlupd {h}", "np:out tlnum {h}",
+        "np:size tlifid {h} 0 64", "np:type tlinfo {h} 0 64", "np:size tlinfo {h} 0 64", "np:size tlinfo {h} 0 null:0",
+        "np:id tlifinfo {h} good 0 64", "np:type tlifinfo {h} good 0 64", "np:size tlifinfo {h} good 0 64",
+        "np:id tlopenif {h} good %d" % (dst + 1), "np:out tlopenif {h} good %d" % (dst + 1),
+        "np:type ifinfo {h} 0 64", "np:size ifinfo {h} 0 64", "np:out ifnum {h}", "np:out ifupd {h}", "np:out ifparent {h}",
+        "np:size ifdevid {h} 0 64", "np:id ifdevinfo {h} bad 0 64", "np:type ifdevinfo {h} bad 0 64", "np:size ifdevinfo {h} bad 0 64",
+        "np:id ifopendev {h} bad", "np:out ifopendev {h} bad", "np:type portinfo {h} 0 64", "np:size portinfo {h} 0 64",
+        "np:size porturl {h} 64", "np:out numurls {h}", "np:type urlinfo {h} 0 0 64", "np:size urlinfo {h} 0 0 64",
+        "np:buf read {h} 0 4", "np:buf read {h} 0 0", "np:size read {h} 0 4", "np:buf write {h} 1028 00000000", "np:buf write {h} 1028 -",
+        "np:size write {h} 1028 00000000", "np:entries reads {h} 1 0 4", "np:count reads {h} 1 0 4", "np:entbuf reads {h} 2 0 4 4 4",
+        "np:entries writes {h} 1 1028 00000000", "np:count writes {h} 1 1028 00000000", "np:entbuf writes {h} 2 4 00000000 1028 00000000",
+    ]
+    return [o.format(h=h) for o in base + nulls]
+
+
+def gen_refusal_sweeps():
+    """A2 + A1/B2: the whole alphabet x {NULL, live system, live interface, stale} handles
+    (a) before GCInitLib, (b) after GCCloseLib, (c) initialised (NULL-pointer / size refusals and
+    the wrong-handle-kind refusals of every entry point)"""
+    seqs = []
+    tail = ["init", "lasterr 160"]
+
+    def chunks(prefix, ops, n=24):
+        for i in range(0, len(ops), n):
+            seqs.append(prefix + ops[i:i + n] + tail)
+
+    chunks([], alphabet(9))                                             # never initialised, NULL handles
+    for h in (0, 1, 9):                                                 # after close, live / NULL handles
+        chunks(OPEN + ["closelib"], alphabet(h, dst=5))
+    for h in (0, 1):                                                    # after close, stale handle variables
+        chunks(OPEN + ["ifclose 1", "tlclose 0", "closelib"], alphabet(h, dst=5))
+    # initialised: every call on every handle kind; closelib / tlclose / ifclose would change the
+    # state for the following calls, so each call runs in its own sequence
+    for h in (0, 1, 9):
+        for op in alphabet(h, dst=5):
+            seqs.append(OPEN + [op, "lasterr 160"])
+    for op in alphabet(1, dst=5):                                       # interface handle whose interface was closed by TLClose
+        if not op.startswith(("tlclose", "closelib")):
+            seqs.append(OPEN + ["tlclose 0", "tlopen 0", op, "lasterr 160"])
+    return seqs
+
+
 # calls that provoke each reachable error, for the GCGetLastError sweep (prefix OPEN)
 PROVOKE = [
     ("none", None), ("RESOURCE_IN_USE", "init"), ("INVALID_HANDLE", "tlclose 9"), ("INVALID_ID", "tlopenif 0 bad 2"),
@@ -432,14 +529,24 @@ def sizes_for(addr, regs, size):
     return sorted(x for x in s if 0 <= x <= (1 << 20))
 
 
+def claimed_sizes(addr):
+    """sizes that are only claimed (child.py): around 2^32, isize::MAX, u64::MAX and the sizes that
+    make address + size = 2^64 - 1, 2^64 (wraps to 0), 2^64 + 1"""
+    s = {1 << 32, 1 << 62, ISIZE_MAX - 1, ISIZE_MAX, ISIZE_MAX + 1, U64 - 2, U64 - 1,
+         U64 - addr - 1, U64 - addr, U64 - addr + 1, ISIZE_MAX - addr, ISIZE_MAX - addr + 1}
+    return sorted(x for x in s if (1 << 20) < x < U64)
+
+
 def gen_port_reads(slot, regs, size, chunk=60):
     probes = []
     for a in boundaries(regs, size):
         for n in sizes_for(a, regs, size):
             probes.append("read %d %d %d" % (slot, a, n))
-        # claimed sizes (see child.py): 2^32, 2^62, and the size that makes address+size = 2^64
-        for n in (1 << 32, 1 << 62):
+        for n in claimed_sizes(a):
             probes.append("read %d %d %d" % (slot, a, n))
+        probes.append("np:buf read %d %d 0" % (slot, a))
+        probes.append("np:buf read %d %d 4" % (slot, a))
+        probes.append("np:size read %d %d 4" % (slot, a))
     return probes
 
 
@@ -457,10 +564,13 @@ def gen_port_writes(rng, slot, regs, size, readback):
                     variants += [b"\x01" + bytes(n - 1)]
             for data in variants:
                 seqs.append(OPEN + ["write %d %d %s" % (slot, a, hexs(data))] + readback + ["lasterr 160"])
+        extra = ["write %d %d claim:%d" % (slot, a, n) for n in claimed_sizes(a)]
+        extra += ["np:buf write %d %d -" % (slot, a), "np:buf write %d %d 00000000" % (slot, a), "np:size write %d %d 00" % (slot, a)]
+        seqs.append(OPEN + extra + readback + ["lasterr 160"])
     return seqs
 
 
-def gen_stacked(rng, slot, regs, size, count):
+def gen_stacked(rng, slot, regs, size, count, readback):
     seqs = []
     bs = boundaries(regs, size)
     small = [b for b in bs if b <= size + 8]
@@ -470,11 +580,18 @@ def gen_stacked(rng, slot, regs, size, count):
         for _ in range(k):
             a = rng.pick(small) if rng.chance(4, 5) else rng.pick(bs)
             n = rng.pick([0, 1, 2, 4, 4, 4, 8, 64])
+            if rng.chance(1, 12):
+                big = rng.pick(claimed_sizes(a))
+                ents_r += [str(a), str(big)]
+                ents_w += [str(a), "claim:%d" % big]
+                continue
             ents_r += [str(a), str(n)]
             ents_w += [str(a), hexs(rng.bytes(n) if rng.chance(1, 2) else bytes(n))]
+        np_r = rng.pick(["", "", "", "", "np:entries ", "np:count ", "np:entbuf "]) if k else ""
         seqs.append(OPEN + ["reads %d %d %s" % (slot, k, " ".join(ents_r)),
                             "writes %d %d %s" % (slot, k, " ".join(ents_w)),
-                            "reads %d %d %s" % (slot, k, " ".join(ents_r)), "lasterr 160"])
+                            np_r + "reads %d %d %s" % (slot, k, " ".join(ents_r)),
+                            np_r + "writes %d %d %s" % (slot, k, " ".join(ents_w))] + readback + ["lasterr 160"])
     return seqs
 
 
@@ -493,7 +610,20 @@ def gen_random(rng, count, env):
         return rng.pick([0, 4, 1024, 1028, 1030, 1032, 1036, size - 4, size, size + 1, 336, 8, 12, 1 << 32, U64 - 1, U64 - 4, rng.below(size + 16)])
 
     def one():
-        k = rng.below(22)
+        k = rng.below(26)
+        if k == 22:
+            s = slot()
+            n = rng.pick([0, 1, 4, 4])
+            return "writes %d 2 %d %s %d %s" % (s, addr(sys_size), hexs(bytes(n)), addr(if_size), hexs(rng.bytes(4)))
+        if k == 23:
+            return rng.pick(["ifnum %d", "ifupd %d", "ifparent %d", "ifdevid %d 0 64", "ifdevinfo %d bad 0 64", "ifopendev %d bad"]) % slot()
+        if k == 24:
+            return rng.pick(alphabet(slot()))
+        if k == 25:
+            s = slot()
+            a = addr(sys_size if s == 0 else if_size)
+            big = rng.pick(claimed_sizes(a))
+            return rng.pick(["read %d %d %d" % (s, a, big), "write %d %d claim:%d" % (s, a, big)])
         if k == 0:
             return "init"
         if k == 1:
@@ -540,7 +670,8 @@ def gen_random(rng, count, env):
 
     seqs = []
     for _ in range(count):
-        seqs.append(list(rng.pick(prefixes)) + [one() for _ in range(6)] + ["lasterr 160"])
+        seqs.append(list(rng.pick(prefixes)) + [one() for _ in range(6)]
+                    + ["read 0 0 %d" % sys_size, "read 1 %d %d" % (env["if_wo"], if_size - env["if_wo"]), "lasterr 160"])
     return seqs
 
 
@@ -566,7 +697,8 @@ def evaluate(rep, orc, stage, seqs, results):
                 lib = True
             elif code == "0" and lib and k not in ("init", "closelib", "lasterr"):
                 nontriv = True
-        line = " ; ".join(res)
+        # '@key=value' tokens are notes for the oracle (pointer identities), not part of the model
+        line = " ; ".join(" ".join(x for x in r.split(" ") if not x.startswith("@")) for r in res)
         rep.case(" ; ".join(ops) + " => " + line, nontriv)
         rep.pending.append(("seq " + " ; ".join(ops), line, ops))
         before = len(orc.violations)
@@ -673,6 +805,15 @@ def cross_checks(rep, orc, env):
     agree(v.get(("tlinfo", 1)), x["sys"]["strs"].get("TLVendorName"), "TL_INFO_VENDOR = <String TLVendorName>")
     agree(v.get(("tlinfo", 2)), x["sys"]["strs"].get("TLModelName"), "TL_INFO_MODEL = <String TLModelName>")
     agree(v.get(("tlinfo", 3)), x["sys"]["strs"].get("TLVersion"), "TL_INFO_VERSION = <String TLVersion>")
+    agree(num(("tlinfo", 9)), x["sys"]["ints"].get("GenTLVersionMajor"), "TL_INFO_GENTL_VER_MAJOR = <Integer GenTLVersionMajor>")
+    agree(num(("tlinfo", 10)), x["sys"]["ints"].get("GenTLVersionMinor"), "TL_INFO_GENTL_VER_MINOR = <Integer GenTLVersionMinor>")
+    agree(num(("tlinfo", 9)), x["if"]["ints"].get("InterfaceTLVersionMajor"), "TL_INFO_GENTL_VER_MAJOR = <Integer InterfaceTLVersionMajor>")
+    agree(num(("tlinfo", 10)), x["if"]["ints"].get("InterfaceTLVersionMinor"), "TL_INFO_GENTL_VER_MINOR = <Integer InterfaceTLVersionMinor>")
+    agree(num(("tlinfo", 9)), x["if"]["ints"].get("DeviceTLVersionMajor"), "TL_INFO_GENTL_VER_MAJOR = <Integer DeviceTLVersionMajor>")
+    agree(num(("tlinfo", 10)), x["if"]["ints"].get("DeviceTLVersionMinor"), "TL_INFO_GENTL_VER_MINOR = <Integer DeviceTLVersionMinor>")
+    agree([v.get(("tlinfo", 4))], x["sys"]["enums"].get("TLType"), "TL_INFO_TLTYPE = the entry of <Enumeration TLType>")
+    agree([v.get(("ifinfo", 2))], x["if"]["enums"].get("InterfaceType"), "INTERFACE_INFO_TLTYPE = the entry of <Enumeration InterfaceType>")
+    agree(num(("tlinfo", 8)), 0, "TL_INFO_CHAR_ENCODING = ASCII")
     agree(v.get(("tlifid", 0)), env["good_id"].decode(), "TLGetInterfaceID stable")
     agree(v.get(("ifinfo", 0)), v.get(("tlifid", 0)), "INTERFACE_INFO_ID = TLGetInterfaceID")
     agree(v.get(("ifinfo", 0)), x["if"]["strs"].get("InterfaceID"), "INTERFACE_INFO_ID = <String InterfaceID>")
@@ -719,7 +860,7 @@ def main():
     rep = Report(args)
     t0 = time.time()
     if not args.no_build:
-        build()
+        build(release=thorough)
     rep.extra["build_s"] = round(time.time() - t0, 1)
     pool = runner.Pool(SO, None, CWD, args.workers)
     d = discover(pool, rep, args.camdrv)
@@ -751,54 +892,77 @@ def main():
     if corpus:
         evaluate(rep, orc, "corpus", corpus, pool.run(corpus))
 
-    # info command x buffer size sweeps (two phases: required sizes, then 0..needed+1)
-    ops, keys = gen_info_phase1()
-    res = pool.run([ops])[0]
-    evaluate(rep, orc, "info-sizes", [ops], [res])
-    sizes = []
-    for key, r in zip(keys, res[len(OPEN):]):
-        if r.split()[0] == "0":
-            sizes.append((key, int(field(r, "n"))))
-    seqs = gen_info_sweeps(sizes)
-    evaluate(rep, orc, "info-sweep", seqs, pool.run(seqs, chunk=4))
-    rep.count("info_queries_swept", len(sizes))
-    rep.count("info_buffer_sizes", sum(n + 5 for _, n in sizes))
-    seqs = gen_lasterr_phase1()
-    res = pool.run(seqs, chunk=4)
-    evaluate(rep, orc, "lasterr-sizes", seqs, res)
-    sizes = [(p, int(field(r[-1], "n"))) for p, r in zip(PROVOKE, res) if r and r[-1].split()[0] == "0"]
-    seqs = gen_lasterr_sweeps(sizes)
-    evaluate(rep, orc, "lasterr-sweep", seqs, pool.run(seqs, chunk=2))
-    cross_checks(rep, orc, env)
+    def sweeps(pool, label, rng):
+        """every stage whose sequences do not depend on the build profile's speed: info sweeps,
+        refusal sweeps, index / command sweeps, port grids.  `label` tags the stage names."""
+        # info command x buffer size sweeps (two phases: required sizes, then 0..needed+1)
+        ops, keys = gen_info_phase1()
+        res = pool.run([ops])[0]
+        evaluate(rep, orc, label + "info-sizes", [ops], [res])
+        sizes = []
+        for key, r in zip(keys, res[len(OPEN):]):
+            if r.split()[0] == "0":
+                sizes.append((key, int(field(r, "n"))))
+        seqs = gen_info_sweeps(sizes)
+        evaluate(rep, orc, label + "info-sweep", seqs, pool.run(seqs, chunk=4))
+        rep.count("info_queries_swept", len(sizes))
+        rep.count("info_buffer_sizes", sum(n + 5 for _, n in sizes))
+        seqs = gen_index_command_sweeps()
+        evaluate(rep, orc, label + "index-command-sweep", seqs, pool.run(seqs, chunk=1))
+        seqs = gen_lasterr_phase1()
+        res = pool.run(seqs, chunk=4)
+        evaluate(rep, orc, label + "lasterr-sizes", seqs, res)
+        sizes = [(p, int(field(r[-1], "n"))) for p, r in zip(PROVOKE, res) if r and r[-1].split()[0] == "0"]
+        seqs = gen_lasterr_sweeps(sizes)
+        evaluate(rep, orc, label + "lasterr-sweep", seqs, pool.run(seqs, chunk=2))
+        # every entry point x {NULL, live, stale} handles: not initialised / closed / NULL
+        # parameters / impossible sizes / wrong handle kind
+        seqs = gen_refusal_sweeps()
+        evaluate(rep, orc, label + "refusal-sweep", seqs, pool.run(seqs, chunk=16))
+        rep.count("refusal_sweep_calls", sum(len(q) for q in seqs))
 
-    # ports: (address, size) grids
-    for slot, kind in ((0, "sys"), (1, "if")):
-        regs = [(a, l, acc) for (a, l, acc) in sorted(set((a, l, acc) for a in [0] for (a, l, acc) in
-                [(r[0], r[1], r[2]) for r in [(int(x[1]), int(x[2]), x[3]) for x in env["xmls"][kind]["regs"]]]))]
-        size, xa, xl = env[kind]
-        regs.append((xa, xl, "RO"))
-        probes = gen_port_reads(slot, regs, size)
-        s, r = run_with_restart(pool, OPEN, probes, 40)
-        evaluate(rep, orc, "port-read-" + kind, s, r)
-        rep.count("port_read_probes_" + kind, len(probes))
-        readback = (["read 0 1024 16", "read 0 1036 64"] if kind == "sys" else ["read 1 4 12", "read 1 12 64", "read 1 332 8"])
-        seqs = gen_port_writes(rng, slot, regs, size, readback)
-        if not thorough:
-            seqs = [q for i, q in enumerate(seqs) if len(q[3]) < 400 or i % 3 == 0]
-        evaluate(rep, orc, "port-write-" + kind, seqs, pool.run(seqs))
-        rep.count("port_write_probes_" + kind, len(seqs))
-        seqs = gen_stacked(rng, slot, regs, size, 1500 if thorough else 300)
-        evaluate(rep, orc, "port-stacked-" + kind, seqs, pool.run(seqs))
-    # interface port with the interface closed, NULL handle, stale-event interplay
-    extra = [
-        ["init", "tlopen 0", "read 1 4 4", "write 1 4 00000000", "read 9 0 4", "write 9 0 00", "reads 9 1 0 4", "writes 9 1 0 00", "lasterr 160"],
-        OPEN + ["ifclose 1", "tlopenif 0 good 2", "read 2 4 4", "write 2 4 00000000", "lasterr 160"],
-        OPEN + ["tlclose 0", "read 1 4 4", "write 1 4 00000000", "reads 1 1 4 4", "writes 1 1 4 00000000", "lasterr 160"],
-        OPEN + ["write 1 3 0100", "lasterr 160", "write 1 100 -", "lasterr 160", "write 1 100 -", "read 1 4 4"],
-        OPEN + ["write 1 0 0100000000000000", "write 1 8 -", "write 1 8 -", "read 1 4 4"],
-        OPEN + ["write 0 1028 05000000", "read 0 1028 4", "write 0 1030 -", "write 0 1028 00000000", "write 0 1030 -", "write 0 1026 -", "lasterr 160"],
-    ]
-    evaluate(rep, orc, "port-extra", extra, pool.run(extra, chunk=1))
+        # ports: (address, size) grids
+        for slot, kind in ((0, "sys"), (1, "if")):
+            regs = sorted(set((int(x[1]), int(x[2]), x[3]) for x in env["xmls"][kind]["regs"]))
+            size, xa, xl = env[kind]
+            regs.append((xa, xl, "RO"))
+            probes = gen_port_reads(slot, regs, size)
+            sq, r = run_with_restart(pool, OPEN, probes, 40)
+            evaluate(rep, orc, label + "port-read-" + kind, sq, r)
+            rep.count("port_read_probes_" + kind, len(probes))
+            # after every write the WHOLE map is read back (frame condition: nothing else changed)
+            readback = ["read 0 0 %d" % env["sys"][0], "read 1 %d %d" % (env["if_wo"], env["if"][0] - env["if_wo"])]
+            seqs = gen_port_writes(rng, slot, regs, size, readback)
+            if not thorough:
+                seqs = [q for i, q in enumerate(seqs) if len(q[3]) < 400 or i % 3 == 0]
+            evaluate(rep, orc, label + "port-write-" + kind, seqs, pool.run(seqs))
+            rep.count("port_write_probes_" + kind, len(seqs))
+            seqs = gen_stacked(rng, slot, regs, size, 1500 if thorough else 300, readback)
+            evaluate(rep, orc, label + "port-stacked-" + kind, seqs, pool.run(seqs))
+        # interface port with the interface closed, NULL handle, stale-event interplay
+        full = ["read 0 0 %d" % env["sys"][0], "read 1 %d %d" % (env["if_wo"], env["if"][0] - env["if_wo"])]
+        extra = [
+            ["init", "tlopen 0", "read 1 4 4", "write 1 4 00000000", "read 9 0 4", "write 9 0 00", "reads 9 1 0 4", "writes 9 1 0 00", "lasterr 160"],
+            OPEN + ["ifclose 1", "tlopenif 0 good 2", "read 2 4 4", "write 2 4 00000000", "lasterr 160"],
+            OPEN + ["tlclose 0", "read 1 4 4", "write 1 4 00000000", "reads 1 1 4 4", "writes 1 1 4 00000000", "lasterr 160"],
+            OPEN + ["write 1 3 0100", "lasterr 160", "write 1 100 -", "lasterr 160", "write 1 100 -", "read 1 4 4"] + full,
+            OPEN + ["write 1 0 0100000000000000", "write 1 8 -", "write 1 8 -", "read 1 4 4"] + full,
+            OPEN + ["write 0 1028 05000000", "read 0 1028 4", "write 0 1030 -", "write 0 1028 00000000", "write 0 1030 -", "write 0 1026 -", "lasterr 160"] + full,
+            OPEN + ["ifparent 1", "tlclose 0", "ifparent 1", "tlopen 0", "tlopenif 0 good 2", "ifparent 2", "ifparent 1", "ifnum 1", "ifupd 1", "ifupd 2"],
+        ]
+        evaluate(rep, orc, label + "port-extra", extra, pool.run(extra, chunk=1))
+
+    sweeps(pool, "", rng)
+    cross_checks(rep, orc, env)
+    flush_model(rep, env, args.camdrv)
+    if thorough and os.path.exists(SO_RELEASE):
+        # the same sweeps against the release build (no debug assertions / overflow checks): the
+        # model has no profile parameter left, both builds must give the same answers
+        rpool = runner.Pool(SO_RELEASE, env["good_id"], CWD, args.workers)
+        sweeps(rpool, "release:", Rng(args.seed))
+        rpool.close()
+        flush_model(rep, env, args.camdrv)
+        rep.extra["release_build_compared"] = True
 
     # state machine: exhaustive to depth D
     depth = 6 if thorough else 5
